@@ -221,22 +221,67 @@ def run(chk):
     chk.assumptions += ["not decided: the value of the tolerance and the exactness ('reported exactly when')"]
 
 
+_INT_LIMITS = {}
+for _bits in (8, 16, 32, 64, 128):
+    _INT_LIMITS["u%d::MIN" % _bits] = 0
+    _INT_LIMITS["u%d::MAX" % _bits] = 2 ** _bits - 1
+    _INT_LIMITS["i%d::MIN" % _bits] = -(2 ** (_bits - 1))
+    _INT_LIMITS["i%d::MAX" % _bits] = 2 ** (_bits - 1) - 1
+_FLOAT_LIMITS = {"f32::MIN": "-3.4028234663852886e38", "f32::MAX": "3.4028234663852886e38", "f64::MIN": "-1.7976931348623157e308", "f64::MAX": "1.7976931348623157e308"}
+
+
+def _file_consts():
+    """f64 constants declared in checker.rs (`const FLOAT16_MAX: f64 = 6.5504e+4_f64;`)"""
+    out = {}
+    for it in astq.items("a2lfile/src/checker.rs"):
+        if it.get("t") == "Const" and it.get("name") and it.get("e") is not None:
+            out[it["name"]] = spec.render(it["e"])
+    return out
+
+
+def eval_num(x, consts, depth=0):
+    """value of a constant f64 expression: literals, unary minus, `<int|float type>::MIN/MAX [as f64]`, named constants of the file"""
+    x = x.strip()
+    for _ in range(4):
+        if x.startswith("(") and x.endswith(")") and x.count("(") == x.count(")"):
+            inner = x[1:-1]
+            bal = 0
+            ok = True
+            for ch in inner:
+                bal += ch == "("
+                bal -= ch == ")"
+                if bal < 0:
+                    ok = False
+            if ok:
+                x = inner.strip()
+                continue
+        break
+    m = re.fullmatch(r"(.*?)\s+as\s+f64", x)
+    if m:
+        return eval_num(m.group(1), consts, depth)
+    if x.startswith("-"):
+        v = eval_num(x[1:], consts, depth)
+        return None if v is None else -v
+    if x in _INT_LIMITS:
+        return float(_INT_LIMITS[x])
+    if x in _FLOAT_LIMITS:
+        return float(_FLOAT_LIMITS[x])
+    if x in consts and depth < 3:
+        return eval_num(consts[x], consts, depth + 1)
+    x2 = re.sub(r"_?f64$", "", x).replace("_", "")
+    try:
+        return float(x2)
+    except ValueError:
+        return None
+
+
 def eval_pair(txt):
     m = re.fullmatch(r"\((.*), (.*)\)", txt)
     if not m:
         return None
-    out = []
-    for x in m.groups():
-        x = x.strip()
-        x = x.replace("(f32::MIN as f64)", "-3.4028234663852886e38").replace("(f32::MAX as f64)", "3.4028234663852886e38")
-        x = x.replace("f64::MIN", "-1.7976931348623157e308").replace("f64::MAX", "1.7976931348623157e308")
-        x = re.sub(r"_?f64$", "", x)
-        x = re.sub(r"^-\s*", "-", x)
-        try:
-            out.append(float(x))
-        except ValueError:
-            return None
-    return out
+    consts = _file_consts()
+    out = [eval_num(x, consts) for x in m.groups()]
+    return None if None in out else out
 
 
 def close(a, b):
